@@ -49,6 +49,8 @@ TCkpt == /\ IsEv("Ckpt")
                             [] Ev.k = "wstart" -> sub[i] = "wstart"
                             [] Ev.k = "retry" -> sub[i] = "retry"
                             [] Ev.k = "fail" -> sub[i] = "failrec"
+                            [] Ev.k = "cin" -> sub[i] = "cmark" /\ Atom(i) = "cin"
+                            [] Ev.k = "cout" -> sub[i] = "cmark" /\ Atom(i) = "cout"
                             [] Ev.k = "ctxEnd" -> sub[i] = "atom" /\ sub'[i] = "ctxWait"
                             [] OTHER -> FALSE
          /\ Consume
